@@ -7,9 +7,9 @@ from lib.core import *
 
 ID = "C10"
 PROPS_FILES = ["Gama/Props/C10.lean", "Gama/Props/C10YSign.lean", "Gama/Props/C10HomSites.lean",
-               "Gama/Props/C10Accept.lean", "Gama/Props/C10Net.lean"]
+               "Gama/Props/C10Accept.lean", "Gama/Props/C10Net.lean", "Gama/Props/C10Aliased.lean"]
 LEAN_TARGETS = ["Gama.Props.C10", "Gama.Props.C10YSign", "Gama.Props.C10HomSites",
-                "Gama.Props.C10Accept", "Gama.Props.C10Net"]
+                "Gama.Props.C10Accept", "Gama.Props.C10Net", "Gama.Props.C10Aliased"]
 DRIVERS = ["drv_cov"]
 RULE = ("CovMat/BandMat index maps for every dim 1..8 x band 0..dim-1 (exhaustive); band LDL' / Cholesky / forward "
         "substitution on SPD matrices L L' built from small integers, every band; Cluster::activeCov for EVERY active "
@@ -557,12 +557,13 @@ def homrun_check(line, impl_o, model_o):
             if not colset:
                 st["corr_block_without_columns"] = 1
         prev_cols = colset if w >= 1 else None
-        # dense block of A as the code reads it: a repeated column index is summed by every consumer of a sparse row in
-        # an uncorrelated block (both elements are kept), OVERWRITTEN in a correlated block (T(i,perm[c]) = *b++)
+        # dense block of A: a repeated column index means the SUM of its coefficients - every consumer of a sparse row in an
+        # uncorrelated block sums (both elements are kept), and so does a correlated block since repo 6d0f7107
+        # (T(i,perm[c]) += *b++; before: the last one won - finding C10-REPCOL)
         A = [[Fraction(0)] * (n + 1) for _ in range(d)]
         for i, r in enumerate(seg):
             for c, v in r:
-                A[i][c] = (A[i][c] if w == 0 else 0) + Fraction(v)
+                A[i][c] = A[i][c] + Fraction(v)
         # (c) structure
         if not dup:
             if w == 0:
@@ -1102,6 +1103,32 @@ def parse_stream(ctx, corr):
                 corr.fail(f"F9 regression: {f.name} (cov-mat dim differs from the number of observations) is not refused by the parser "
                           f"with a located dimension diagnostic", {"stream": "covparse", "gkf": f.read_text(), "kind": kind},
                           "GKFparser::finish_" + kind, c10_net._outcome(r))
+    # regression inputs of finding C10-REPCOL (fixed in 6d0f7107): an observation from a point to itself inside a cluster
+    # with a non-diagonal covariance matrix - a sparse row with a repeated column index in a CORRELATED block of
+    # Homogenization::run - must be adjusted by envelope exactly as by gso / svd / cholesky
+    with _tf.TemporaryDirectory(prefix="c10rep-") as trc:
+        for f in (sorted(corpus.glob("net-repcol-*.gkf")) if corpus.exists() else []):
+            rr = {alg: c10_net._run_one(exe, trc, f.stem + "-" + alg, f.read_text(), alg) for alg in c10_net.ALGS}
+            corr.case(key="corpus:" + f.name)
+            corr.count("stream_net_corpus_repcol")
+            ref = rr["gso"]
+            bad = []
+            if ref["error"] or not ref["adj"] or ref["pvv"] is None:
+                bad.append("gso: " + c10_net._outcome(ref))
+            else:
+                for alg in c10_net.ALGS:
+                    r = rr[alg]
+                    if r["error"] or r["pvv"] is None or set(r["adj"]) != set(ref["adj"]):
+                        bad.append(alg + ": " + c10_net._outcome(r))
+                        continue
+                    dev = max((abs(r["adj"][pid][k] - ref["adj"][pid][k]) for pid in ref["adj"] for k in ref["adj"][pid]
+                               if k in r["adj"][pid]), default=0.0)
+                    corr.maxstat("repcol_max_coord_dev_m", dev)
+                    if dev > 1e-8 or abs(r["pvv"] - ref["pvv"]) > 1e-6 * max(1.0, abs(ref["pvv"])):
+                        bad.append(f"{alg}: adjusted coordinates differ from gso by {dev:.3e} m, [pvv] {r['pvv']!r} vs {ref['pvv']!r}")
+            if bad:
+                corr.fail(f"C10-REPCOL regression: {f.name} (self-observation inside a correlated cluster) is not adjusted alike by "
+                          "the four algorithms", {"stream": "net-repcol", "gkf": f.read_text()}, "Homogenization::run", "; ".join(bad))
     model, mcr = run_cases(ctx.driver("drv_cov"), [[c["line"]] for c in cases])
     f9_reported = set()
     for i, c in enumerate(cases):
@@ -1497,22 +1524,44 @@ LEVEL_TEXT = ("Lean 4 theorems (all dimensions, band widths, masks, all field el
               "a whole; the boolean sign rule of the covariances is regenerated from network.cpp for the way in and the way out "
               "(updated_xml_covmat) and proved to be the exclusive or, i.e. C -> D C D (symmetric, positive definite iff C is, the "
               "weighted problem of the mirrored description; the export writes back the input matrix). "
-              "Round 9: at the LocalNetwork entry point the answer of netSolve (any algorithm, one input-side hypothesis) minimises m0^2 v' Sigma^-1 v with Sigma the FULL block covariance of the active observations (C10_network_solution_uses_full_covariance, witnessed on a band-1 cluster with an excluded observation); the output of the executable Homogenization::run model is the whitened system (W A, W b), W'W = m0^2 Sigma^-1, that envSolve factorises and prepareProjectEquations leaves (C10_sparse_path_is_homogenization_run); the two acceptance tests (relative N eps max-diag of CovMat::cholDec at parse time and in prepare - scale invariant, proved - versus absolute 1e-14 of BlockDiagonal::cholDec) are compared on their common exact pivots: agree iff, and both gaps with witnesses (C10-TINY and the reverse gap); repeated column indices: dense path and uncorrelated blocks sum, a correlated block of Homogenization::run keeps the last one (NEG witness, replayed).")
-LEVEL_NOTE = ("Trusted: Lean kernel, statements in Props/C10.lean and Props/C10YSign.lean, harness/c10_cov.cpp, harness/c10_ysign.cpp, "
+              "Round 9: at the LocalNetwork entry point the answer of netSolve (any algorithm, one input-side hypothesis) minimises m0^2 v' Sigma^-1 v with Sigma the FULL block covariance of the active observations (C10_network_solution_uses_full_covariance, witnessed on a band-1 cluster with an excluded observation); the output of the executable Homogenization::run model is the whitened system (W A, W b), W'W = m0^2 Sigma^-1, that envSolve factorises and prepareProjectEquations leaves (C10_sparse_path_is_homogenization_run); the two acceptance tests (relative N eps max-diag of CovMat::cholDec at parse time and in prepare - scale invariant, proved - versus absolute 1e-14 of BlockDiagonal::cholDec) are compared on their common exact pivots: agree iff, and both gaps with witnesses (C10-TINY and the reverse gap); repeated column indices (an observation from a point to itself): dense path, uncorrelated blocks and - since repo 6d0f7107, with the operator of `T(i,perm[c]) += a` regenerated into Gen/HomogenizationSites and read by C10_homogenization_gather_site - correlated blocks of Homogenization::run all SUM them (C10_repeated_columns_agree; regression network corpus/C10/net-repcol-*.gkf run under the four algorithms on every check); for gso/svd/cholesky the network theorem holds with NO hypothesis on the sparse rows, about the summed design matrix (C10_network_solution_uses_full_covariance_aliased).")
+LEVEL_NOTE = ("Trusted: Lean kernel, statements in the files of PROPS_FILES (Props/C10.lean, C10YSign, C10HomSites, C10Accept, C10Net, "
+              "C10Aliased), harness/c10_cov.cpp, harness/c10_ysign.cpp, "
               "tools/gen/c10_ysign.py (parses the two sign conditions; everything around them is matched against the modelled shape), "
-              "generators and tolerances. IEEE rounding is "
+              "tools/gen/c10_homsites.py (Homogenization::run: throw test and kind, order of the 11 phases, arithmetic of the rhs forward "
+              "substitution by skeleton matching on tools/gen/cfun.py, operator of the gather store and that T is zeroed before it; "
+              "dimension guards of finish_obs / finish_hdiffs -> Gen/HomogenizationSites, read by the five theorems of "
+              "Props/C10HomSites.lean), generators and tolerances. Hand models behind those sites: the counting and assembling passes "
+              "beyond their order, the perm/invp numbering, the scatter, BlockDiagonal::cholDec, CovParse (finish_cov accounting). "
+              "Residues: C10_homogenization_run and C10_sparse_path_is_homogenization_run keep the hypothesis 'no repeated column "
+              "index in a row' (the solver-side model Ls.Env.homogenize still reads a repeated column as last-write-wins; the C++ and "
+              "Cov.Hom.run sum since 6d0f7107); C10_network_solution_uses_full_covariance_aliased excludes the envelope algorithm; "
+              "'a non positive definite block is rejected by every algorithm' is one-way at network level (C01_net_rejects) and "
+              "examples at parse time; findings: C10-REPCOL fixed (6d0f7107), C10-covmat-dim-check fixed (410fb36), "
+              "C10-homogenization-nonpd fixed (7e9fd7d), C10-TINY known (proved as C10_tiny_gap; two corpus cases classified on "
+              "every run). IEEE rounding is "
               "not modelled (theorems are over ordered fields; Float runs are compared with tolerance 1e-9).")
-TECHNIQUE = "Lean 4 proof (index bijection, loop invariants, matrix algebra) + model/implementation correspondence"
+TECHNIQUE = ("Lean 4 proof (index bijection, loop invariants, matrix algebra, uniqueness of the triangular factorisation for the "
+             "comparison of the two acceptance tests) + translators (y-sign rule, sites of Homogenization::run and the dimension "
+             "guards) + model/implementation correspondence + network-level oracle on gama-local (tools/props/c10_net.py)")
 TRUSTED = ["harness/c10_cov.cpp (test Observation type for Cluster<Observation>)",
            "harness/c10_ysign.cpp (real LocalNetwork built by GKFparser; remove_inconsistency / return_inconsistency)",
-           "gama-local executable behaviour observed through exit code / message text / --xml output"]
+           "gama-local executable behaviour observed through exit code / message text / --xml output",
+           "translator tools/gen/c10_ysign.py (parser of the boolean sign expression; the loop nest around it is hand Model/YSign, "
+           "shape-checked)",
+           "translator tools/gen/c10_homsites.py (regex markers for the phases and the throw block, cfun skeleton for the forward "
+           "substitution, regex for the gather statement and the dimension guards; anything else stops the run)"]
 MODELLED = ["IEEE rounding in the Cholesky kernels (proved over ordered fields with sqrt; executed at Rat and Float)",
             "toDouble / toIndex / white-space splitting of <cov-mat> character data (input abstraction, owned by C11)",
             "Cluster::act_dim caching (activeCov model recomputes it; update() is called by every caller chain)",
             "BlockDiagonal::cholDec / UpperBlockDiagonal / Homogenization::run: modelled with raw offsets on one buffer and "
             "compared with the C++ and with the dense path; see notes/reports/C10.md (Round 3) for the refinement lemmas proved; "
+            "its throw, phase order, forward substitution and gather store are regenerated (Gen/HomogenizationSites, round 7 / 9b) and "
+            "it is proved equal in values and rejections to the solver-side Ls.Env.homogenize (C16_hom_run_eq_env_homogenize, "
+            "hypothesis: no repeated column index in a row); "
             "Homogenization's ready/reset caching is not modelled (one call of run)"]
 ASSUMPTIONS = ["covariance blocks have 0 <= band < dim (established by GKFparser::process_cov and Cluster::activeCov, proved)",
                "Homogenization::run: design matrix completely built, rows = sum of block dims = rhs size, column indices in "
-               "1..cols; theorem additionally: no repeated column index inside a sparse row (the C++ overwrites T(i,perm[c]) "
-               "in correlated blocks; modelled and compared, excluded from the theorem)"]
+               "1..cols; C10_homogenization_run additionally: no repeated column index inside a sparse row (since repo 6d0f7107 the "
+               "C++ sums T(i,perm[c]) += a in correlated blocks too; modelled, compared, proved for the gather loop without that "
+               "hypothesis - C10_repeated_columns_agree - but the hypothesis is still in the statement of the whole-run theorem)"]
